@@ -78,6 +78,9 @@ type Spec struct {
 
 	// ExpectError: the operation is expected to return an error (exit 0 when it does).
 	ExpectError bool `json:"expect_error,omitempty"`
+	// ErrorAllowed: the operation may either succeed (exit 0) or return an
+	// error (exit 4); the test decides what the destination must look like.
+	ErrorAllowed bool `json:"error_allowed,omitempty"`
 }
 
 // ---------------------------------------------------------------- content
